@@ -42,7 +42,7 @@ def strategy(eng: str, gated: bool, seed: int):
     from hypothesis import strategies as st
     big = (seed % 4 == 0) and eng in ('fork',)
     s = specs.dag_spec(min_nodes=3, max_nodes=(20 if big else (6 if eng == 'spawn' else 12)), backends=(eng,),
-                       types=['N1', 'N2', 'N3', 'NN', 'Z1', 'Z2'] if not big else ['NN', 'N3'],
+                       types=['N1', 'N2', 'N3', 'NN', 'Z1', 'Z2', 'CtxSubKid'] if not big else ['NN', 'N3'],
                        fail_modes=['raise:ValueError'] + ([] if eng == 'serial' else ['kill9']), fail_rate=10,
                        wide=True, req_many=True, pre_cache=(eng == 'controlled'), bust=False, contexts=False,
                        max_workers=(None,) if big else (1, 2, 3, None), noread_rate=30)
